@@ -137,8 +137,10 @@ def judge_imports(items, info, chk, pc, nwarn):
 
 def import_shapes(tier):
     out = []
-    kinds = [('Tb', 'type'), ('vb', 'value'), ('CLS', 'class'), ('My-Type', 'type'), ('my-val', 'value')]
-    defs = {'Tb': 'Tb ::= SEQUENCE { p BOOLEAN }', 'vb': 'vb INTEGER ::= 3', 'CLS': 'CLS ::= CLASS { &id INTEGER }', 'My-Type': 'My-Type ::= BOOLEAN', 'my-val': 'my-val BOOLEAN ::= TRUE'}
+    # T1 / X509-ID: type references made of capitals, digits and hyphens only are types, not information object classes
+    kinds = [('Tb', 'type'), ('vb', 'value'), ('CLS', 'class'), ('My-Type', 'type'), ('my-val', 'value'), ('T1', 'type'), ('X509-ID', 'type')]
+    defs = {'Tb': 'Tb ::= SEQUENCE { p BOOLEAN }', 'vb': 'vb INTEGER ::= 3', 'CLS': 'CLS ::= CLASS { &id INTEGER }', 'My-Type': 'My-Type ::= BOOLEAN', 'my-val': 'my-val BOOLEAN ::= TRUE',
+            'T1': 'T1 ::= INTEGER (0..7)', 'X509-ID': 'X509-ID ::= OCTET STRING'}
     combos = []
     for r in (1, 2, 3):
         combos += list(itertools.combinations(kinds, r))
